@@ -150,7 +150,9 @@ CHECKS = {
              "is a prefix of the items; all histories of depth 4(6) over 8 menu inputs x 9 lender kinds x Take variants "
              "are exported and executed on LineLender (cursor/BufRead/file/path), ZstdLineLender, GzipLineLender, "
              "FromIntoIterator and Take of them (compressed inputs flushed every 2 bytes, 3-byte BufReader), each call "
-             "judged by TLC; random and large inputs (multi-block zstd, long lines, CRLF mixes) likewise.",
+             "judged by TLC; random and large inputs (multi-block zstd, long lines, CRLF mixes, inputs starting with a "
+             "byte-order mark), sources whose seek fails, damaged and wide-window compressed streams (first pass as "
+             "reference) likewise; the builder's own rewinding (anchor vbuilder.rs) through the vbuild retry recipes.",
         note=TRUST + "One genuine defect is recorded, not repaired (rewind of lender::Take keeps the remaining count; "
              "needs an API change): known_findings.json F-take-rewind-remaining. I/O errors are not injected here (C17).",
         design_ref="5/C20"),
@@ -211,8 +213,11 @@ CHECKS = {
              "scheduler parked on the hooks and every step's memory effect is judged by TLC (Trace_Atomic), and random "
              "/ PCT / burst schedules over 4-8 threads and hundreds of fields, incl. the real "
              "EliasFanoConcurrentBuilder::set compared with the sequential builder, are validated as behaviours of the "
-             "spec. The rayon-parallel (unscheduled) concurrent Elias-Fano build is compared with the sequential one "
-             "by the ef family under the same property.",
+             "spec. Because the scheduler only sees instructions that carry a hook, the same instances also run with "
+             "unscheduled threads behind a spin barrier (hundreds of repetitions; event `free`): every distinct outcome "
+             "must satisfy what TLC proves of all interleavings (NoInterference, frame, a linearization of the calls on "
+             "each bit). The rayon-parallel (unscheduled) concurrent Elias-Fano build is compared with the sequential "
+             "one by the ef family under the same property.",
         note=TRUST + "Memory is modelled sequentially consistent per word (each step is one atomic operation on one "
              "location, so this is sound for distinct-element writers; reordering across different words is outside "
              "the model). Step-by-step conformance is tied to the pinned instruction order. Needs hooks (--cfg sux_verif).",
@@ -254,7 +259,10 @@ CHECKS = {
              "largest-shard recipes avg/mid/max) x eps x all implementations x ~200 signatures (all-zero, all-ones, "
              "each word/limb saturated, single bits, random) the contract of the property with wide arithmetic in "
              "TLA+: distinct, in range, in slice, edge = local_edge(local_sig)+shard*num_vertices, shard = high bits "
-             "(= Sig::high_bits), sort_key < num_sort_keys; also after reload (full/eps/mmap).",
+             "(= Sig::high_bits), sort_key < num_sort_keys; also after reload (full/eps/mmap). 'Same at build and query "
+             "time' is also decided end to end by the vbuild family: sharded functions and filters of every sharding "
+             "logic, and hints on the other side of a sharding threshold, answered through the aligned and the "
+             "unaligned getters (Trace_VBuild, hook events for shard bits).",
         note=TRUST + "The floating-point parameter formulas are not modelled (parameters are read from the log and "
              "only the contract is checked); n <= 10^12; geometry for design membership is parsed from Display.",
         design_ref="5/C16"),
